@@ -11,9 +11,9 @@ git apply OUT/patch.diff || { echo "CONFIRM patch does not apply"; exit 2; }
 if cargo test --workspace --no-fail-fast --offline >"$WT/OUT/confirm-suite.log" 2>&1; then S=pass; else S=FAIL; fi
 N=$(grep -E "^test result" "$WT/OUT/confirm-suite.log" | awk '{s+=$4} END{print s}')
 cp "OUT/$NAME.rs" "tests/$NAME.rs"
-if cargo test --offline --test "$NAME" >"$WT/OUT/confirm-demo-with.log" 2>&1; then W=pass; else W=FAIL; fi
+if cargo test --offline ${DEMO_FEATURES:+--features $DEMO_FEATURES} --test "$NAME" >"$WT/OUT/confirm-demo-with.log" 2>&1; then W=pass; else W=FAIL; fi
 git apply -R OUT/patch.diff
-if cargo test --offline --test "$NAME" >"$WT/OUT/confirm-demo-without.log" 2>&1; then O=pass; else O=FAIL; fi
+if cargo test --offline ${DEMO_FEATURES:+--features $DEMO_FEATURES} --test "$NAME" >"$WT/OUT/confirm-demo-without.log" 2>&1; then O=pass; else O=FAIL; fi
 rm -f "tests/$NAME.rs"; git checkout -q -- .
 echo "CONFIRM suite-with-patch=$S ($N tests) demo-with-patch=$W demo-without-patch=$O"
 [ "$S" = pass ] && [ "$W" = FAIL ] && [ "$O" = pass ]
